@@ -44,6 +44,8 @@ class Scheduler:
         self.aborting = False
         self.switches = 0
         self.points = 0
+        self.site_hits = {}       # (thread, source position) -> visible operations of that thread there so far
+        self.preempted_at = []    # [(thread, "file:line", nth visible operation of the thread at that position, thread switched to)]
         main_interp.model_state['sched'] = self
 
     # ---------------------------------------------------------------- helpers
@@ -86,6 +88,10 @@ class Scheduler:
         self.points += 1
         if self.aborting:
             raise ThreadAbort()
+        site = self.site_of(I)
+        if site is not None:
+            k = (me, site)
+            self.site_hits[k] = self.site_hits.get(k, 0) + 1
         if self.preemptions >= self.bound:
             return
         others = self.others_runnable(me)
@@ -95,7 +101,19 @@ class Scheduler:
         if c == 0:
             return
         self.preemptions += 1
+        if site is not None:
+            self.preempted_at.append((me, site, self.site_hits[(me, site)], others[c - 1].tid))
         self.switch_to(me, others[c - 1])
+
+    def site_of(self, I):
+        """source position (file:line) of the innermost frame of crate or harness code the thread is in"""
+        for fr in reversed(I.stack):
+            sp = fr.fn.get('tspans')
+            if sp and fr.fn.get('krate') in ('sentinel_core', 'sentinel_tower', 'harness'):
+                pos = sp[fr.at] if fr.at is not None and fr.at < len(sp) else None
+                if pos and not pos.startswith('/rustc/') and '/.cargo/' not in pos:
+                    return pos
+        return None
 
     def block(self, I, lock):
         """the running thread cannot take `lock` now: run someone else (not a preemption)"""
